@@ -8,6 +8,7 @@ require (
 	github.com/google/go-cmp v0.7.0
 	google.golang.org/genproto/googleapis/api v0.0.0-20260223185530-2f722ef697dc
 	google.golang.org/genproto/googleapis/rpc v0.0.0-20260223185530-2f722ef697dc
+	google.golang.org/grpc v1.79.3
 	google.golang.org/protobuf v1.36.11
 )
 
@@ -15,7 +16,6 @@ require (
 	golang.org/x/net v0.48.0 // indirect
 	golang.org/x/sys v0.39.0 // indirect
 	golang.org/x/text v0.32.0 // indirect
-	google.golang.org/grpc v1.79.3 // indirect
 )
 
 replace connectrpc.com/vanguard => /repo
